@@ -130,3 +130,52 @@ M("C12-frontend-window-default", {"C12": "C12.R4"}, ("front_end.py", "    args =
 M("C12-twin-rowvar", {"C12": None}, ("cluster_maintenance.py", "        np.transpose(training_data_this_cluster),\n        bias=use", "        training_data_this_cluster, rowvar=False,\n        bias=use"))
 M("C12-twin-dotT", {"C12": None}, ("cluster_maintenance.py", "        np.transpose(training_data_this_cluster),\n        bias=use", "        training_data_this_cluster.T,\n        bias=use"))
 M("C12-twin-inline-rows", {"C12": None}, ("cluster_maintenance.py", "    updated_cluster.stacked_data_mean = np.mean(\n        training_data_this_cluster, axis=0)", "    updated_cluster.stacked_data_mean = np.mean(\n        training_data[cluster.member_points], axis=0)"))
+
+# ---------------------------------------------------------------- C01
+_K = "cluster_label_assignment.py"
+M("C01-price-index-plus-one", {"C01": "C01.R4"},
+  (_K, "future_cost_vals[i+1] + label_assignment_cost[i+1] + label_switching_cost[i]", "future_cost_vals[i+1] + label_assignment_cost[i+1] + label_switching_cost[i+1]"),
+  (_K, "            if total_vals[arg_general_min] < total_vals[cluster] - label_switching_cost[i]:", "            if total_vals[arg_general_min] < total_vals[cluster] - label_switching_cost[i+1]:"),
+  (_K, "                future_cost_vals[i, cluster] = total_vals[cluster] - label_switching_cost[i]", "                future_cost_vals[i, cluster] = total_vals[cluster] - label_switching_cost[i+1]"))
+M("C01-price-index-mixed", {"C01": ["C01.R4", "C01.R3"]},
+  (_K, "            if total_vals[arg_general_min] < total_vals[cluster] - label_switching_cost[i]:", "            if total_vals[arg_general_min] < total_vals[cluster] - label_switching_cost[i+1]:"))
+M("C01-sweep-stops-at-one", {"C01": "C01.R2"}, (_K, "    for i in range(num_points-2, -1, -1):", "    for i in range(num_points-2, 0, -1):"))
+M("C01-sweep-starts-late", {"C01": "C01.R2"}, (_K, "    for i in range(num_points-2, -1, -1):", "    for i in range(num_points-3, -1, -1):"))
+M("C01-inner-skips-last-cluster", {"C01": "C01.R2"}, (_K, "        for cluster in range(num_clusters):", "        for cluster in range(num_clusters - 1):"))
+M("C01-guard-flipped", {"C01": "C01.R3"}, (_K, "            if total_vals[arg_general_min] < total_vals[cluster] - label_switching_cost[i]:", "            if total_vals[arg_general_min] > total_vals[cluster] - label_switching_cost[i]:"))
+M("C01-argmax", {"C01": "C01.R3"}, (_K, "        arg_general_min = np.argmin(total_vals)", "        arg_general_min = np.argmax(total_vals)"))
+M("C01-stay-keeps-price", {"C01": "C01.R3"}, (_K, "                future_cost_vals[i, cluster] = total_vals[cluster] - label_switching_cost[i]", "                future_cost_vals[i, cluster] = total_vals[cluster]"))
+M("C01-pointer-swapped", {"C01": "C01.R3"},
+  (_K, "                path_matrix[i, cluster] = arg_general_min\n", "                path_matrix[i, cluster] = cluster\n"),
+  (_K, "                path_matrix[i, cluster] = cluster\n                future_cost_vals[i, cluster] = total_vals[cluster] - ", "                path_matrix[i, cluster] = arg_general_min\n                future_cost_vals[i, cluster] = total_vals[cluster] - "))
+M("C01-guard-ignores-price", {"C01": "C01.R3"}, (_K, "            if total_vals[arg_general_min] < total_vals[cluster] - label_switching_cost[i]:", "            if total_vals[arg_general_min] < total_vals[cluster]:"))
+M("C01-successor-row-i", {"C01": ["C01.R3", "C01.R1"]}, (_K, "total_vals = future_cost_vals[i+1] + label_assignment_cost[i+1] + label_switching_cost[i]", "total_vals = future_cost_vals[i+1] + label_assignment_cost[i] + label_switching_cost[i]"))
+M("C01-start-zero", {"C01": "C01.R6"}, (_K, "    path[0] = curr_location\n", "    path[0] = 0\n"))
+M("C01-start-ignores-first-cost", {"C01": "C01.R6"}, (_K, "    curr_location = np.argmin(future_cost_vals[0, :] + label_assignment_cost[0, :])", "    curr_location = np.argmin(future_cost_vals[0, :])"))
+M("C01-cost-at-other-index", {"C01": "C01.R6"}, (_K, "    true_cost = future_cost_vals[0, path[0]] + label_assignment_cost[0, path[0]]", "    true_cost = future_cost_vals[0, path[0]] + label_assignment_cost[0, 0]"))
+M("C01-cost-min-of-future-only", {"C01": "C01.R6"}, (_K, "    true_cost = future_cost_vals[0, path[0]] + label_assignment_cost[0, path[0]]", "    true_cost = np.min(future_cost_vals[0, :])"))
+M("C01-readout-wrong-row", {"C01": "C01.R7"}, (_K, "        path[i+1] = path_matrix[i, path[i]]", "        path[i+1] = path_matrix[i+1, path[i]]"))
+M("C01-readout-short", {"C01": "C01.R7"}, (_K, "    for i in range(num_points-1):\n        path[i+1]", "    for i in range(num_points-2):\n        path[i+1]"))
+M("C01-pointer-uint8", {"C01": "C01.R1"}, (_K, "dtype=np.uint16", "dtype=np.uint8"))
+M("C01-pointer-int8", {"C01": "C01.R1"}, (_K, "dtype=np.uint16", "dtype=np.int8"))
+M("C01-costtogo-zeros-like", {"C01": "C01.R1"}, (_K, "    future_cost_vals = np.zeros(label_assignment_cost.shape)\n", "    future_cost_vals = np.zeros_like(label_assignment_cost)\n"))
+M("C01-no-broadcast-scalar-only", {"C01": ["C01.R5", "C01.R4"]}, (_K, "    label_switching_cost = np.zeros(shape=(num_points,)) + label_switching_cost\n", "    label_switching_cost = np.zeros(shape=(num_points,)) + float(label_switching_cost)\n"))
+M("C01-handover-positive-ll", {"C01": "C01.R9"}, (_K, "    label_assignment_cost = - log_likelihood\n", "    label_assignment_cost = log_likelihood\n"))
+M("C01-handover-price-constant", {"C01": "C01.R9"}, (_K, "        label_switching_cost=model.arguments.label_switching_cost\n", "        label_switching_cost=400\n"))
+M("C01-handover-cost-dropped", {"C01": "C01.R9"}, (_K, "    new_model.label_assignment_cost = cost\n", "    new_model.label_assignment_cost = model.label_assignment_cost\n"))
+M("C01-fastpath-zero-price", {"C01": ["C01.R3", "C01.R8"]},
+  (_K, "        arg_general_min = np.argmin(total_vals)\n", "        arg_general_min = np.argmin(total_vals)\n        if label_switching_cost[i] == 0:\n            arg_general_min = np.argmin(label_assignment_cost[i+1])\n"))
+# twins
+M("C01-twin-nonstrict", {"C01": None}, (_K, "            if total_vals[arg_general_min] < total_vals[cluster] - label_switching_cost[i]:", "            if total_vals[arg_general_min] <= total_vals[cluster] - label_switching_cost[i]:"))
+M("C01-twin-reversed-range", {"C01": None}, (_K, "    for i in range(num_points-2, -1, -1):", "    for i in reversed(range(num_points-1)):"))
+M("C01-twin-swapped-branches", {"C01": None},
+  (_K, "            if total_vals[arg_general_min] < total_vals[cluster] - label_switching_cost[i]:\n                path_matrix[i, cluster] = arg_general_min\n                future_cost_vals[i, cluster] = total_vals[arg_general_min]\n            else:\n                path_matrix[i, cluster] = cluster\n                future_cost_vals[i, cluster] = total_vals[cluster] - label_switching_cost[i]\n",
+   "            stay = total_vals[cluster] - label_switching_cost[i]\n            if not stay > total_vals[arg_general_min]:\n                future_cost_vals[i, cluster] = stay\n                path_matrix[i, cluster] = cluster\n            else:\n                future_cost_vals[i, cluster] = total_vals[arg_general_min]\n                path_matrix[i, cluster] = arg_general_min\n"))
+M("C01-twin-argmin-without-price", {"C01": None},
+  (_K, "        arg_general_min = np.argmin(total_vals)", "        arg_general_min = np.argmin(future_cost_vals[i+1] + label_assignment_cost[i+1])"))
+M("C01-twin-new-name-for-broadcast", {"C01": None},
+  (_K, "    label_switching_cost = np.zeros(shape=(num_points,)) + label_switching_cost\n", "    beta = np.zeros(shape=(num_points,)) + label_switching_cost\n"),
+  (_K, "future_cost_vals[i+1] + label_assignment_cost[i+1] + label_switching_cost[i]", "future_cost_vals[i+1] + label_assignment_cost[i+1] + beta[i]"),
+  (_K, "            if total_vals[arg_general_min] < total_vals[cluster] - label_switching_cost[i]:", "            if total_vals[arg_general_min] < total_vals[cluster] - beta[i]:"),
+  (_K, "                future_cost_vals[i, cluster] = total_vals[cluster] - label_switching_cost[i]", "                future_cost_vals[i, cluster] = total_vals[cluster] - beta[i]"))
+M("C01-twin-uint32", {"C01": None}, (_K, "dtype=np.uint16", "dtype=np.uint32"))
